@@ -485,7 +485,115 @@ static std::vector< std::string > split(const std::string &line) {
   return v;
 }
 
+// ----------------------------------------------------------------------------
+// maintenance + stress mode:  containers_harness maint <seed> <nseq> <out.ndjson>
+//  (a) sequential histories of the maintenance calls of ThreadSafeVector that the simulations make while no worker runs
+//      (get_free_element, free_element, clear_after, clear); after every call the slots held (lock flags), the occupancy
+//      count and the cursor are recorded: {"e":"m","op":..,"arg":..,"ret":..,"flags":[..],"taken":n,"cursor":c}
+//  (b) stress: T real threads each apply K operations of one kind to one AtomicValue without any controller; the value at
+//      the end is recorded next to the sum of the operands: {"e":"stress","kind":..,"threads":T,"ops":K,"expected":x,"got":y}
+static int do_maint(unsigned long seed, int nseq, const char *outname) {
+  FILE *out = fopen(outname, "w");
+  uint64_t x = 88172645463325252ULL ^ (seed * 2654435761ULL);
+  auto rnd = [&x]() {
+    x ^= x << 13;
+    x ^= x >> 7;
+    x ^= x << 17;
+    return x;
+  };
+  for (int q = 0; q < nseq; ++q) {
+    const size_t size = 3 + rnd() % 6;
+    ThreadSafeVector< int > pool(size);
+    fprintf(out, "{\"e\":\"mreset\",\"size\":%zu}\n", size);
+    std::vector< size_t > held;
+    const int nops = 6 + rnd() % 14;
+    for (int k = 0; k < nops; ++k) {
+      const uint64_t r = rnd() % 10;
+      std::string op;
+      long arg = -1, ret = -1;
+      if (r < 5 && held.size() < size) {
+        op = "get";
+        ret = pool.get_free_element();
+        held.push_back(ret);
+      } else if (r < 7 && !held.empty()) {
+        op = "free";
+        const size_t j = rnd() % held.size();
+        arg = held[j];
+        pool.free_element(arg);
+        held.erase(held.begin() + j);
+      } else if (r < 9) {
+        // precondition of clear_after: every slot below the offset is in use
+        size_t off = 0;
+        std::vector< bool > h(size, false);
+        for (size_t v : held)
+          h[v] = true;
+        while (off < size && h[off])
+          ++off;
+        if (off > 0)
+          off = rnd() % (off + 1);
+        op = "clear_after";
+        arg = off;
+        pool.clear_after(off);
+        std::vector< size_t > keep;
+        for (size_t v : held)
+          if (v < off)
+            keep.push_back(v);
+        held = keep;
+      } else {
+        op = "clear";
+        pool.clear();
+        held.clear();
+      }
+      std::string flags;
+      for (size_t i = 0; i < size; ++i)
+        flags += std::string(i ? "," : "") + (VerifAccess::flag(pool, i) ? "1" : "0");
+      fprintf(out, "{\"e\":\"m\",\"op\":\"%s\",\"arg\":%ld,\"ret\":%ld,\"flags\":[%s],\"taken\":%zu,\"cursor\":%zu}\n", op.c_str(), arg,
+              ret, flags.c_str(), VerifAccess::taken(pool), VerifAccess::cursor(pool));
+    }
+  }
+  const char *kinds[] = {"pre_increment", "post_increment", "pre_decrement", "pre_add", "post_add", "pre_subtract"};
+  for (int kk = 0; kk < 6; ++kk) {
+    const int T = 8;
+    const long K = 200000;
+    AtomicValue< int_fast64_t > v(0);
+    const std::string kind = kinds[kk];
+    const long d = 3;
+    long step = 0;
+    if (kind == "pre_increment" || kind == "post_increment")
+      step = 1;
+    else if (kind == "pre_decrement")
+      step = -1;
+    else if (kind == "pre_add" || kind == "post_add")
+      step = d;
+    else
+      step = -d;
+#pragma omp parallel num_threads(T) default(shared)
+    {
+      for (long i = 0; i < K; ++i) {
+        if (kind == "pre_increment")
+          v.pre_increment();
+        else if (kind == "post_increment")
+          v.post_increment();
+        else if (kind == "pre_decrement")
+          v.pre_decrement();
+        else if (kind == "pre_add")
+          v.pre_add(d);
+        else if (kind == "post_add")
+          v.post_add(d);
+        else
+          v.pre_subtract(d);
+      }
+    }
+    fprintf(out, "{\"e\":\"stress\",\"kind\":\"%s\",\"threads\":%d,\"ops\":%ld,\"expected\":%ld,\"got\":%ld}\n", kind.c_str(), T, K,
+            step * T * K, (long)v.value());
+  }
+  fclose(out);
+  return 0;
+}
+
 int main(int argc, char **argv) {
+  if (argc >= 5 && std::string(argv[1]) == "maint")
+    return do_maint(strtoul(argv[2], nullptr, 10), atoi(argv[3]), argv[4]);
   if (argc < 3) {
     std::cerr << "usage: containers_harness <scenarios> <out.ndjson>\n";
     return 2;
